@@ -15,7 +15,7 @@ META = {
     "rule": ("case = [target type descriptor, value descriptor]; distinct by JSON; non-trivial when value "
              "nesting depth >= 2 or it is an array/list/static-array constant with >= 1 element"),
     "required": ["monitor:inhabits", "monitor:decoded-value", "monitor:reported-type", "monitor:helper-tag", "monitor:const-load", "monitor:program-load",
-                 "feature:func-value", "feature:array", "feature:sugar", "monitor:selftest-negative",
+                 "feature:func-value", "feature:array", "feature:sugar", "monitor:selftest-negative", "monitor:func-root-signature",
                  "monitor:embedded-elements", "feature:one-shot-iterables"],
     "reach": ["hugr.val:Sum.type_", "hugr.val:Function.type_", "hugr.build.dfg:DfBase.load",
               "hugr.std.int:IntVal.to_value", "hugr.std.collections.array:ArrayVal.to_value"],
@@ -167,6 +167,55 @@ def check_value(ctx, case, stratum="value"):
                      wire.canon(lj["datatype"]), stratum=stratum, case=case)
 
 
+def check_func_root(ctx, case):
+    """A function value whose body is rooted at a TailLoop (the dataflow parent whose outer signature differs from
+    its body's): "a function-valued constant has the signature of its body"."""
+    import hugr._serialization.ops as sops
+    from hugr import Node, OutPort, ops, tys, val
+    from hugr.build import Dfg
+    from hugr.build.cond_loop import TailLoop
+    from vf.gen.types import Builder, wire_ty
+    from vf.oracles import wire
+
+    tb = Builder()
+    J, JO, R = ([tb.ty(t) for t in case[k]] for k in ("just", "jout", "rest"))
+    tl = TailLoop(J, R)
+    ins = tl.inputs()
+    tag = tl.add_op(ops.Tag(case["tag"], tys.Sum([J, JO])), *(ins[:len(J)] if case["tag"] == 0 else []))
+    if case["tag"] == 1 and JO:
+        return False
+    tl.set_loop_outputs(tag, *ins[len(J):])
+    V = val.Function(tl.hugr)
+    exp_t = wire.canon(wire_ty(["func", case["just"] + case["rest"],
+                                [["sum", [case["just"], case["jout"]]], *case["rest"]], []]))
+    ctx.count("monitor:func-root-signature")
+    vj = dump(V)
+    rows = wire.body_rows(vj["hugr"])
+    if rows is None or [rows[0], rows[1]] != [exp_t["input"], exp_t["output"]]:
+        ctx.disc(None, "harness-generator-bug", "loop body rows", [exp_t["input"], exp_t["output"]], rows,
+                 stratum="func-root", case=case, prop="HARNESS")
+        return False
+    for what, got in (("reported-type", wire.canon(dump(V.type_()))),
+                      ("reported-vs-serialized-type", wire.type_of_value(vj)),
+                      ("decoded-reported-type",
+                       wire.canon(dump(sops.Value.model_validate_json(json.dumps(vj)).deserialize().type_())))):
+        if got != exp_t:
+            ctx.disc(None, what, "func(loop root)", exp_t, got, stratum="func-root", case=case)
+    kind = ops.Const(V).port_kind(OutPort(Node(0), 0))
+    if not isinstance(kind, tys.ConstKind) or wire.canon(dump(kind.ty)) != exp_t:
+        ctx.disc(None, "const-port-kind", "Const.out(0)", exp_t, repr(kind), stratum="func-root", case=case)
+    d = Dfg()
+    ld = d.load(V)
+    ot = d.hugr.port_type(ld.out(0))
+    lj = d.hugr[ld].op._to_serial(Node(0)).model_dump(mode="json")
+    if ot is None or wire.canon(dump(ot)) != exp_t:
+        ctx.disc(None, "loadconst-out-type", "LoadConst.out(0)", exp_t, repr(ot), stratum="func-root", case=case)
+    if wire.canon(lj["datatype"]) != exp_t:
+        ctx.disc(None, "const-vs-load-wire-type", "datatype", exp_t, wire.canon(lj["datatype"]), stratum="func-root",
+                 case=case)
+    return True
+
+
 def check_program_loads(ctx, p):
     """cross-cutting: every `load` of a built program yields a LoadConst whose static port carries
     ConstKind(T) and whose output has type T, T being the type of the generator's value descriptor"""
@@ -243,6 +292,15 @@ def run(ctx):
         p = gen_program(r, budget=30)
         nl = ctx.guard("program", p, check_program_loads, ctx, p)
         ctx.case("program", p, bool(nl) and nl >= 2)
+    for i in ctx.mine(ctx.n(300, 10000)):
+        r = ctx.rng("func-root", i)
+        g = VGen(r)
+        row = lambda: [g.const_type(1, allow_func=False) for _ in range(r.randint(0, 2))]  # noqa: E731
+        case = {"just": row(), "jout": row(), "rest": row(), "tag": 0}
+        if not case["jout"] and r.random() < 0.5:
+            case["tag"] = 1   # the loop ends at once (empty just_outputs)
+        ok = ctx.guard("func-root", case, check_func_root, ctx, case)
+        ctx.case("func-root", case, bool(ok) and bool(case["just"] or case["rest"]))
     maxd = ctx.n(3, 5)
     for i in ctx.mine(ctx.n(12000, 400000)):
         r = ctx.rng("value", i)
@@ -263,5 +321,7 @@ def run(ctx):
 def replay(ctx, rec):
     if rec.get("stratum") == "program":
         check_program_loads(ctx, rec["case"])
+    elif rec.get("stratum") == "func-root":
+        check_func_root(ctx, rec["case"])
     else:
         check_value(ctx, rec["case"])
